@@ -495,7 +495,6 @@ impl VLogWriter {
 	}
 
 	/// Flushes and syncs the writer (flush to OS cache + fsync to disk).
-	#[cfg_attr(not(test), allow(dead_code))]
 	pub(crate) fn sync(&mut self) -> Result<()> {
 		self.writer.flush()?;
 		self.writer.get_ref().sync_all()?;
@@ -601,6 +600,14 @@ impl VLog {
 			let mut writer = self.writer.write();
 
 			if writer.is_none() || writer.as_ref().unwrap().size() >= self.max_file_size {
+				// The full file is about to be replaced: write out and fsync it first.
+				// `VLog::sync` only reaches the current file, and dropping the writer
+				// would flush it with any error ignored, while tables synced later keep
+				// pointers into it.
+				if let Some(old_writer) = writer.as_mut() {
+					old_writer.sync()?;
+				}
+
 				// Create new file
 				let file_id = self.next_file_id.fetch_add(1, Ordering::SeqCst);
 				let file_path = self.vlog_file_path(file_id);
